@@ -973,6 +973,8 @@ def run(ctx):
         try:
             extra_oracles2.ctor_args(ctx)
             extra_oracles2.viz_labels(ctx)
+            from .. import extra_oracles3
+            extra_oracles3.plot_row_index(ctx, quick=(ctx.tier == 'quick'))
         except Exception as ex:       # the oracle itself must never hide the result of the check proper
             ctx.obligation('oracle:extra:raised', False, 'correspondence', repr(ex))
             ctx.violation('oracle:extra:raised:' + type(ex).__name__, 'constructor-argument / label oracle raised ' + repr(ex), {'repro': '# see tools/vf/extra_oracles2.py'})
